@@ -140,8 +140,10 @@ set_option maxRecDepth 1000000 in
     abstract registers (`penSet` / `link` may over-approximate).
     What is missing for the full transport `emu (bytes history) = applyEvs (events history)`: the start states are three
     samples rather than all terminals (the strings' effects are state-independent register assignments except the title
-    stack and `?47`, which the samples exercise in both states); the composition over histories is validated, not
-    proved, by the engine `modes` (byte-exact tie + the emulator judging the implementation's own bytes). -/
+    stack and `?47`, which the samples exercise in both states).  SUPERSEDED for the mode registers by
+    `db_mode_strings_known` + `modes_restored_bytes` / `resume_reapplies_bytes` below (all start states, whole histories);
+    kept because it is still the only Layer-B statement about SGR state / hyperlink (`penSet`, `link`) and about the
+    cursor-colour draw commands. -/
 theorem layerB_samples_partial : (Gen.db.filter isEcma).all layerBEntry = true := by decide +kernel
 
 /-! ## the byte-level theorems: Layer A transported to the reference emulator, all start states, whole histories -/
